@@ -45,7 +45,7 @@ func vfGenHeaders(r *verifkit.Rand, prefix string) []*conformancev1.Header {
 		name := fmt.Sprintf("%s-%s-%d", verifkit.Pick(r, []string{"X", "x", "X-Mixed", "x-lower"}), prefix, i)
 		var vals []string
 		for k := 1 + r.Intn(3); k > 0; k-- {
-			vals = append(vals, verifkit.Pick(r, []string{"a", "Value With Spaces", "v,with,commas", "", "z=1; q=\"x\"", "~!@#$%^&*()"}))
+			vals = append(vals, verifkit.Pick(r, []string{"a", "Value With Spaces", "v,with,commas", "", "z=1; q=\"x\"", "~!@#$%^&*()", "a, ,b", "x,,y", "one, two"}))
 		}
 		if r.Chance(1, 4) {
 			name += verifkit.Pick(r, []string{"-bin", "-Bin"})
@@ -130,7 +130,11 @@ func vfGenCase(r *verifkit.Rand, i int) (*conformancev1.TestCase, string) {
 		n := r.Intn(5)
 		for k := 0; k < n; k++ {
 			m := &conformancev1.ClientStreamRequest{RequestData: vfGenPayload(r)}
-			if k == 0 && !r.Chance(1, 5) {
+			if k == 0 && !r.Chance(1, 3) {
+				m.ResponseDefinition = vfGenUnaryDef(r)
+			} else if k > 0 && (r.Chance(1, 4) || (msgs[0].(*conformancev1.ClientStreamRequest).ResponseDefinition == nil && r.Chance(2, 3))) {
+				// a definition in a later message is a decoy: servers read it from the first message only
+				// (most tempting when the first message has none)
 				m.ResponseDefinition = vfGenUnaryDef(r)
 			}
 			msgs = append(msgs, m)
@@ -160,6 +164,9 @@ func vfGenCase(r *verifkit.Rand, i int) (*conformancev1.TestCase, string) {
 				case nresp < nreq:
 					shape += "/fewer-responses-than-requests"
 				}
+			}
+			if k > 0 && (r.Chance(1, 4) || (msgs[0].(*conformancev1.BidiStreamRequest).ResponseDefinition == nil && r.Chance(2, 3))) {
+				m.ResponseDefinition = vfGenStreamDef(r, r.Intn(3)) // decoy, see above
 			}
 			msgs = append(msgs, m)
 		}
